@@ -59,6 +59,8 @@ KIND_TAGS = {
     "optname": ["none", "str", "other", "int"],
     "name": ["str", "other", "int", "none"],
     "text": ["str"],
+    "selfc": ["Other", "Other+compiled"],
+    "newobj": ["new"],
 }
 
 
@@ -72,9 +74,16 @@ def forks_for(params):
     return [dict(zip(names, combo)) for combo in itertools.product(*spaces)]
 
 
-def make_value(eng, path, name, kind, tag):
+def make_value(eng, path, name, kind, tag, fi=None):
     if tag in TYPE_NAMES:
         return new_pregex(eng, path, name, tag)
+    if tag.endswith("+compiled"):
+        obj = new_pregex(eng, path, name, tag.split("+")[0])
+        # cache invariant (Inv): compiled == COMPILE(EXPORT(pattern), MULTILINE|DOTALL)
+        path.fields(obj)["_Pregex__compiled"] = RM.CompiledV(path.fields(obj)["_Pregex__pattern"], FLAGS_MS)
+        return obj
+    if tag == "new":
+        return Obj(fi.cls, "pregex", label="self")
     if tag == "int":
         return z3.Int(f"{name}")
     if tag == "bool":
@@ -100,7 +109,7 @@ def make_value(eng, path, name, kind, tag):
 def make_args(eng, path, fork, fi, contract):
     env = {}
     for name, kind in contract["params"].items():
-        env[name] = make_value(eng, path, name, kind, fork[name])
+        env[name] = make_value(eng, path, name, kind, fork[name], fi)
     return env
 
 
@@ -256,7 +265,208 @@ def ext_re_compile(eng, path, args, kwargs):
             path.assume(m != z3.StringVal(LBMSG))
             path.setf(e, "msg", SStr([Atom(m, "opq")]), frame=False)
         raise RaiseExc("error", e, info="re.error from re.compile")
-    raise Limitation("re.compile on a text that is not a look-behind probe")
+    if isinstance(text, SStr) and len(text.pieces) == 1 and not isinstance(text.pieces[0], str) and text.pieces[0].tag == "export":
+        # B4 (assumed): compiling the exported text is compiling the pattern
+        return RM.CompiledV(text.pieces[0].info, kwargs.get("flags", args[1] if len(args) > 1 else 0))
+    raise Limitation("re.compile on a text that is neither a look-behind probe nor an exported pattern")
+
+
+# ---- matching API (R5 / R8 oracle terms) -----------------------------------------------------------------
+from . import remodel as RM
+FLAGS_MS = 24   # re.MULTILINE | re.DOTALL
+
+
+def sb_TXT(eng, path, source, is_path):
+    """the text a matching method works on: the file's content (READ) when is_path, else the argument"""
+    if isinstance(is_path, bool):
+        return RM.read_file(eng, path, source) if is_path else source
+    if path.branch(is_path, "is_path"):
+        return RM.read_file(eng, path, source)
+    return source
+
+
+def sb_READ(eng, path, source):
+    return RM.read_file(eng, path, source)
+
+
+def sb_FINDITER(eng, path, p, text):
+    return RM.finditer(eng, path, sb_TEXT(eng, path, p), text, FLAGS_MS)
+
+
+def sb_NMATCHES(eng, path, p, text):
+    return RM.Matches(sb_TEXT(eng, path, p), FLAGS_MS, text).n()
+
+
+def sb_FULLMATCHES(eng, path, p, text):
+    return RM.FULLMATCH(str_term(sb_TEXT(eng, path, p)), z3.IntVal(FLAGS_MS), str_term(text))
+
+
+def sb_RESUB(eng, path, p, repl, text, count):
+    return SStr([Atom(RM.SUB(str_term(sb_TEXT(eng, path, p)), str_term(repl), str_term(text), zterm(count), z3.IntVal(FLAGS_MS)), "resub")])
+
+
+def sb_EXPORTED(eng, path, p):
+    t = sb_TEXT(eng, path, p)
+    return SStr([Atom(RM.EXPORT(str_term(t)), "export", t)])
+
+
+def sb_COMPILED(eng, path, p):
+    return RM.CompiledV(sb_TEXT(eng, path, p), FLAGS_MS)
+
+
+def sb_COMPILED_FIELD(eng, path, p):
+    return path.getf(p, "_Pregex__compiled")
+
+
+def sb_SAME_COMPILED(eng, path, a, b):
+    if a is None or b is None:
+        return a is None and b is None
+    if not isinstance(a, RM.CompiledV) or not isinstance(b, RM.CompiledV):
+        return False
+    return eng.and_(eng.equal(a.pat, b.pat, path), a.flags == b.flags)
+
+
+def sb_SAMESEQ(eng, path, a, b):
+    Ma, Mb = getattr(a, "M", None), getattr(b, "M", None)
+    if Ma is None or Mb is None:
+        return False
+    return simplify_bool(z3.And(Ma.pat == Mb.pat, Ma.flags == Mb.flags, Ma.text == Mb.text))
+
+
+def seq_view(v):
+    if isinstance(v, (list, tuple)):
+        items = list(v)
+        return len(items), (lambda i: None), items
+    return v.length, v.getter, None
+
+
+def sb_SEQ_EQ(eng, path, a, b):
+    """element-wise equality of two sequences (generic index = the map-loop's own index when there is one)"""
+    if isinstance(a, (list, tuple)) and isinstance(b, (list, tuple)):
+        return eng.equal(tuple(a), tuple(b), path)
+    if not isinstance(a, SymSeq) or not isinstance(b, SymSeq):
+        if isinstance(a, (list, tuple)) and isinstance(b, SymSeq):
+            a, b = b, a
+        if isinstance(a, SymSeq) and isinstance(b, (list, tuple)):
+            conds = [a.length == len(b)]
+            for i, x in enumerate(b):
+                conds.append(box(a.getter(z3.IntVal(i))) == box(x))
+            return simplify_bool(z3.And(*conds))
+        return False
+    k = getattr(a, "skolem", None)
+    if k is None:
+        k = getattr(b, "skolem", None)
+    if k is None:
+        k = eng.fresh("kk", IntS)
+    ea = a.getter(k)
+    eb = b.getter(k)
+    from .loops import boxed_if_complex
+    eq = eng.equal(boxed_if_complex(ea), boxed_if_complex(eb), path)
+    return simplify_bool(z3.And(a.length == b.length, z3.Implies(z3.And(k >= 0, k < a.length), zterm(eq))))
+
+
+def sb_LIST_EQ(eng, path, a, b):
+    ta = a.term if hasattr(a, "term") else a
+    tb = b.term if hasattr(b, "term") else b
+    return simplify_bool(ta == tb)
+
+
+_rec = {}
+
+
+def rec_cappos():
+    if "cp" in _rec:
+        return _rec["cp"]
+    CP = z3.RecFunction("CAPPOS", StrS, IntS, StrS, IntS, BoolS, BoolS, IntS, L)
+    pat, tx = z3.Strings("cp_pat cp_tx")
+    fl, k, j = z3.Ints("cp_fl cp_k cp_j")
+    ie, rel = z3.Bools("cp_ie cp_rel")
+    a = (pat, fl, tx, k)
+    none, gs, ge = RM.GNONE(*a, j), RM.GS(*a, j), RM.GE(*a, j)
+    sval = PYSLICE(tx, gs, ge)
+    grp = z3.If(none, V_NONE, V_STR(sval))
+    keep = z3.Or(ie, none, sval != z3.StringVal(""))
+    off = RM.MSTART(*a)
+    shift = z3.And(rel, gs > -1)
+    entry = V_TUP3(grp, V_INT(z3.If(shift, gs - off, gs)), V_INT(z3.If(shift, ge - off, ge)))
+    prev = CP(pat, fl, tx, k, ie, rel, j - 1)
+    z3.RecAddDefinition(CP, [pat, fl, tx, k, ie, rel, j], z3.If(j <= 0, NIL, z3.If(keep, APP(prev, entry), prev)))
+    _rec["cp"] = CP
+    return CP
+
+
+def rec_namedpos():
+    if "np" in _rec:
+        return _rec["np"]
+    NP = z3.RecFunction("NAMEDPOS", StrS, IntS, StrS, IntS, BoolS, BoolS, IntS, L)
+    pat, tx = z3.Strings("np_pat np_tx")
+    fl, k, j = z3.Ints("np_fl np_k np_j")
+    ie, rel = z3.Bools("np_ie np_rel")
+    a = (pat, fl, tx, k)
+    idx = RM.GINDEX(pat, j - 1)
+    none, gs, ge = RM.GNONE(*a, idx), RM.GS(*a, idx), RM.GE(*a, idx)
+    sval = PYSLICE(tx, gs, ge)
+    grp = z3.If(none, V_NONE, V_STR(sval))
+    keep = z3.Or(ie, none, sval != z3.StringVal(""))
+    off = RM.MSTART(*a)
+    shift = z3.And(rel, gs > -1)
+    entry = V_TUP2(V_STR(RM.GNAME(pat, j - 1)),
+                   V_TUP3(grp, V_INT(z3.If(shift, gs - off, gs)), V_INT(z3.If(shift, ge - off, ge))))
+    prev = NP(pat, fl, tx, k, ie, rel, j - 1)
+    z3.RecAddDefinition(NP, [pat, fl, tx, k, ie, rel, j], z3.If(j <= 0, NIL, z3.If(keep, APP(prev, entry), prev)))
+    _rec["np"] = NP
+    return NP
+
+
+def rec_splits():
+    if "sp" in _rec:
+        return _rec["sp"]
+    SP = z3.RecFunction("SPLITS", StrS, IntS, StrS, IntS, L)
+    pat, tx = z3.Strings("sp_pat sp_tx")
+    fl, j = z3.Ints("sp_fl sp_j")
+    a = (pat, fl, tx)
+    prevend = z3.If(j - 1 <= 0, z3.IntVal(0), RM.MEND(*a, j - 2))
+    piece = V_STR(PYSLICE(tx, prevend, RM.MSTART(*a, j - 1)))
+    z3.RecAddDefinition(SP, [pat, fl, tx, j], z3.If(j <= 0, NIL, APP(SP(pat, fl, tx, j - 1), piece)))
+    _rec["sp"] = SP
+    return SP
+
+
+def _margs(eng, path, m):
+    if not isinstance(m, RM.MatchV):
+        raise Limitation("CAPPOS of a non-match value")
+    return m.M.args() + (m.k,)
+
+
+def sb_CAPPOS(eng, path, m, include_empty, relative, j):
+    return TermList(rec_cappos()(*_margs(eng, path, m), zterm(include_empty), zterm(relative), zterm(j)))
+
+
+def sb_NAMEDPOS(eng, path, m, include_empty, relative, j):
+    from .symex import TermDict
+    return TermDict(rec_namedpos()(*_margs(eng, path, m), zterm(include_empty), zterm(relative), zterm(j)))
+
+
+def sb_NGROUPS(eng, path, p):
+    return RM.NGROUPS(str_term(sb_TEXT(eng, path, p)))
+
+
+def sb_NNAMED(eng, path, p):
+    return RM.NNAMED(str_term(sb_TEXT(eng, path, p)))
+
+
+def sb_SPLITS(eng, path, p, text, j):
+    return TermList(rec_splits()(str_term(sb_TEXT(eng, path, p)), z3.IntVal(FLAGS_MS), str_term(text), zterm(j)))
+
+
+def sb_PREVEND(eng, path, p, text, j):
+    a = (str_term(sb_TEXT(eng, path, p)), z3.IntVal(FLAGS_MS), str_term(text))
+    j = zterm(j)
+    return z3.If(j <= 0, z3.IntVal(0), RM.MEND(*a, j - 1))
+
+
+def sb_APPENDED(eng, path, lst, x):
+    return TermList(APP(lst.term, box(x)))
 
 
 SPEC_BUILTINS = {k[3:]: v for k, v in list(globals().items()) if k.startswith("sb_")}
@@ -345,7 +555,12 @@ def ret_to_pregex(eng, path, env, fi, contract):
     return ret_newpregex(eng, path, {"pattern": pre, "escape": True}, fi, contract)
 
 
-RETURNS = {"to_pregex": ret_to_pregex, "pregex": ret_pregex, "expr": ret_expr, "newpregex": ret_newpregex}
+def ret_setcompiled(eng, path, env, fi, contract):
+    path.setf(env["self"], "_Pregex__compiled", RM.CompiledV(sb_TEXT(eng, path, env["self"]), FLAGS_MS))
+    return None
+
+
+RETURNS = {"setcompiled": ret_setcompiled, "to_pregex": ret_to_pregex, "pregex": ret_pregex, "expr": ret_expr, "newpregex": ret_newpregex}
 
 
 # ------------------------------------------------------------------------------------------------------
@@ -381,5 +596,6 @@ def build_engine(index, contracts):
     eng = Engine(index, table, dict(SPEC_BUILTINS))
     eng.last_detail = None
     eng.externals["re.compile"] = ext_re_compile
+    RM.install(eng)
     load_spec_module(eng)
     return eng
